@@ -49,20 +49,29 @@ func replaceDir(src, dst string) {
 }
 
 type crashImage struct {
-	state  int // 0 old, 1 state batch only, 2 state batch + prune
+	state  int // number of durable writes of the state store that reached disk (0 = old ... stateK = new)
+	stateK int // durable writes the state store makes for this block (1 = one batch; 2 = batch + journal pruning)
 	index  int // 0 old, 1 new
 	bfStep int // 0..10 completed blockfile writes
 }
 
 func (c crashImage) String() string {
-	st := []string{"old", "batch-without-prune", "new"}[c.state]
+	st := fmt.Sprintf("%d-of-%d-writes", c.state, c.stateK)
+	if c.state == 0 {
+		st = "old"
+	} else if c.state == c.stateK {
+		st = "new"
+	}
 	ix := []string{"old", "new"}[c.index]
 	return fmt.Sprintf("state=%s index=%s blockfile-writes=%d/10", st, ix, c.bfStep)
 }
 
 // class is the coarse signature used for known findings.
 func (c crashImage) class() string {
-	st := []string{"old", "new", "new"}[c.state]
+	st := "new"
+	if c.state == 0 {
+		st = "old"
+	}
 	ix := []string{"old", "new"}[c.index]
 	bf := "partial"
 	if c.bfStep == 0 {
@@ -73,13 +82,13 @@ func (c crashImage) class() string {
 	return fmt.Sprintf("state=%s index=%s blockfile=%s", st, ix, bf)
 }
 
-func composeImage(img, oldDir, state1Dir, newDir string, c crashImage) {
+func composeImage(img, oldDir string, stateDirs map[int]string, newDir string, c crashImage) {
 	sim.CopyDir(oldDir, img)
-	switch c.state {
-	case 1:
-		replaceDir(filepath.Join(state1Dir, "storage", "ledger"), filepath.Join(img, "storage", "ledger"))
-	case 2:
+	switch {
+	case c.state == c.stateK:
 		replaceDir(filepath.Join(newDir, "storage", "ledger"), filepath.Join(img, "storage", "ledger"))
+	case c.state > 0:
+		replaceDir(filepath.Join(stateDirs[c.state], "storage", "ledger"), filepath.Join(img, "storage", "ledger"))
 	}
 	if c.index == 1 {
 		replaceDir(filepath.Join(newDir, "storage", "blockchain"), filepath.Join(img, "storage", "blockchain"))
@@ -247,35 +256,43 @@ func c11Property(t *rapid.T) {
 	}
 	ops = append(ops, fmt.Sprintf("crash height %d (%d txs), %d continuation blocks", h, len(crashBlock.txs), len(cont)))
 
-	// state store after the state batch but before the journal-prune batch
+	// the durable writes of the state store for this block are counted by a run on a copy (normally one batch, two
+	// when journals are pruned); for every proper prefix of them a copy of the state store with exactly that prefix
+	// on disk is produced by a run whose store drops the later writes
 	prune := h > 10
-	state1Dir := ""
-	if prune {
-		state1Dir = sim.NewDir("c11-s1")
-		cleanup = append(cleanup, state1Dir)
-		sim.CopyDir(oldDir, state1Dir)
+	runWith := func(allowed int) (string, int) {
+		d := sim.NewDir("c11-s")
+		cleanup = append(cleanup, d)
+		sim.CopyDir(oldDir, d)
 		var fs *sim.FaultStore
 		o2 := opts
 		o2.WrapState = func(s storage.Storage) storage.Storage { fs = sim.NewFaultStore(s); return fs }
-		n1, err := sim.TryOpenNode(state1Dir, o2)
+		n1, err := sim.TryOpenNode(d, o2)
 		if err != nil {
 			f.fail("cannot open a copy of the node: %v", err)
 		}
-		fs.Arm(1)
+		fs.Arm(allowed)
 		exec(n1, crashBlock)
+		seen := fs.Seen
 		n1.Close()
+		return d, seen
+	}
+	_, stateK := runWith(1 << 30)
+	if stateK < 1 {
+		f.fail("harness: the state store made no durable write for block %d", h)
+	}
+	stateDirs := map[int]string{}
+	for k := 1; k < stateK; k++ {
+		stateDirs[k], _ = runWith(k)
 	}
 
 	st := sim.StatsFor("C11")
 	st.Exhaustive = true // every prefix combination of the durable writes is enumerated for each (history, height)
 	var images []crashImage
-	for s := 0; s <= 2; s++ {
-		if s == 1 && !prune {
-			continue
-		}
+	for s := 0; s <= stateK; s++ {
 		for ix := 0; ix <= 1; ix++ {
 			for bf := 0; bf <= 10; bf++ {
-				images = append(images, crashImage{s, ix, bf})
+				images = append(images, crashImage{s, stateK, ix, bf})
 			}
 		}
 	}
@@ -289,7 +306,7 @@ func c11Property(t *rapid.T) {
 			continue
 		}
 		img := sim.NewDir("c11-img")
-		composeImage(img, oldDir, state1Dir, newDir, c)
+		composeImage(img, oldDir, stateDirs, newDir, c)
 		problem := func() string {
 			type opened struct {
 				n   *sim.Node
@@ -370,7 +387,7 @@ func c11Property(t *rapid.T) {
 			fmt.Printf("DBG image %s -> %q\n", c.String(), problem)
 		}
 		nt := ""
-		if !(c.state == 0 && c.index == 0 && c.bfStep == 0) && !(c.state == 2 && c.index == 1 && c.bfStep == 10) {
+		if !(c.state == 0 && c.index == 0 && c.bfStep == 0) && !(c.state == c.stateK && c.index == 1 && c.bfStep == 10) {
 			nt = fmt.Sprintf("%v/%d/%d/%s/%s", fresh, h, len(crashBlock.txs), c.String(), hashH)
 		}
 		cls := "image:" + c.class()
